@@ -74,3 +74,44 @@ Theorem C03_direct_error :
     exists status code, authorize glob info reqobj_supported notfound cs r st q = (st, OPage status code).
 Proof. exact direct_error. Qed.
 Print Assumptions C03_direct_error.
+
+(* Callback id placement (round 11). A callback names its authorization request by the `id` parameter,
+   which may travel in the URL query (what AuthCallbackURL builds), in a form body (login UIs that
+   finish with a POST), in both, or repeated: ids = (values in the body, values in the query), in the
+   order of Request.Form. Whatever the store, router, storage fault and write fault: the answer either
+   sends the user agent nowhere (error page, cut page), or the FIRST of those values is the id of a
+   stored request s and the answer points to nothing but the stored URI of s (points_to: the Location /
+   form action is the canonical rendering of s_uri s). With C03_no_open_redirect: that URI passed
+   validation for the client of s. *)
+Theorem C03_callback_addressed :
+  forall (glob : string -> string -> gres) (info : string -> uinfo) (reqobj_supported : bool)
+         (notfound : errkind) (cs : list client) (st : list sreq) (r : router) (ids : cbids)
+         (f : cfault) (w : wcut),
+    let x := snd (step glob info reqobj_supported notfound cs st (Callback r ids f w)) in
+    no_redirect x = true \/
+    exists n s, hd_error (cb_body ids ++ cb_query ids) = Some (Some n) /\ nth_error st n = Some s /\
+                points_to info s x = true.
+Proof. exact callback_addressed. Qed.
+Print Assumptions C03_callback_addressed.
+
+(* Beyond that first value the placement is irrelevant: two callbacks whose first id value is the same
+   (query vs body, further values behind it, either router) get the same answer and leave the same store. *)
+Theorem C03_callback_placement :
+  forall (glob : string -> string -> gres) (info : string -> uinfo) (reqobj_supported : bool)
+         (notfound : errkind) (cs : list client) (st : list sreq) (r r' : router) (a b : cbids)
+         (f : cfault) (w : wcut),
+    cb_id a = cb_id b ->
+    step glob info reqobj_supported notfound cs st (Callback r a f w) =
+    step glob info reqobj_supported notfound cs st (Callback r' b f w).
+Proof. exact callback_placement. Qed.
+Print Assumptions C03_callback_placement.
+
+(* No id at all, or an empty first value: an error page and an unchanged store. *)
+Theorem C03_callback_no_id :
+  forall (glob : string -> string -> gres) (info : string -> uinfo) (reqobj_supported : bool)
+         (notfound : errkind) (cs : list client) (st : list sreq) (r : router) (ids : cbids)
+         (f : cfault) (w : wcut),
+    cb_id ids = None ->
+    exists status, step glob info reqobj_supported notfound cs st (Callback r ids f w) = (st, OPage status "").
+Proof. exact callback_no_id. Qed.
+Print Assumptions C03_callback_no_id.
